@@ -147,6 +147,10 @@ def perturbations(spec, role):
             s = copy.deepcopy(spec)
             s['hk'] = dict(hk, ca='rsa', ca_bits=4096)
             out.append(('ca-type', 'CA signature type', s))
+            # the same curve behind a FIDO authenticator is another kind of CA key
+            s = copy.deepcopy(spec)
+            s['hk'] = dict(hk, ca='sk-ed25519')
+            out.append(('ca-type-plain-to-security-key', 'CA signature type', s))
         # the certificate behind ONE algorithm name changes its CA (the other certificates stay as they are)
         for alg, (ca, cab) in sorted((hk.get('ca_by_alg') or {}).items()) if probing else ():
             if ca == 'rsa':
